@@ -1010,7 +1010,77 @@ Qed.
 (* ------------------------------------------------------------------ *)
 (* runners used by the in-Coq replay of harness observations *)
 
+(* ---------- overlapping queries: the provider calls of a run as a multiset ---------- *)
+
+Fixpoint nl_eqb (a b : list N) : bool :=
+  match a, b with
+  | [], [] => true
+  | x :: a', y :: b' => N.eqb x y && nl_eqb a' b'
+  | _, _ => false
+  end.
+
+Definition ocall_eqb (a b : ocall) : bool :=
+  match a, b with
+  | OCands x, OCands y => N.eqb x y
+  | OFilter v i, OFilter w j => N.eqb v w && Bool.eqb i j
+  | OSort l, OSort m => nl_eqb l m
+  | ODeps x, ODeps y => N.eqb x y
+  | _, _ => false
+  end.
+
+Fixpoint remove_call (x : ocall) (l : list ocall) : option (list ocall) :=
+  match l with
+  | [] => None
+  | y :: t => if ocall_eqb x y then Some t else option_map (cons y) (remove_call x t)
+  end.
+
+(* the two lists contain the same calls the same number of times *)
+Fixpoint calls_permb (a b : list ocall) : bool :=
+  match a with
+  | [] => match b with [] => true | _ => false end
+  | x :: t => match remove_call x b with Some b' => calls_permb t b' | None => false end
+  end.
+
+Lemma nl_eqb_eq a : forall b, nl_eqb a b = true -> a = b.
+Proof.
+  induction a as [|x a IH]; intros [|y b]; simpl; try discriminate; [reflexivity|].
+  intro H. apply andb_true_iff in H. destruct H as [H1 H2]. apply N.eqb_eq in H1. subst. f_equal. apply IH. exact H2.
+Qed.
+
+Lemma ocall_eqb_eq a b : ocall_eqb a b = true -> a = b.
+Proof.
+  destruct a, b; simpl; try discriminate; intro H.
+  - apply N.eqb_eq in H. subst. reflexivity.
+  - apply andb_true_iff in H. destruct H as [H1 H2]. apply N.eqb_eq in H1. apply Bool.eqb_prop in H2. subst. reflexivity.
+  - apply nl_eqb_eq in H. subst. reflexivity.
+  - apply N.eqb_eq in H. subst. reflexivity.
+Qed.
+
+Lemma remove_call_perm x : forall l l', remove_call x l = Some l' -> Permutation l (x :: l').
+Proof.
+  induction l as [|y t IH]; intros l' H; simpl in H; [discriminate|].
+  destruct (ocall_eqb x y) eqn:E.
+  - apply ocall_eqb_eq in E. subst. inversion H. subst. apply Permutation_refl.
+  - destruct (remove_call x t) as [t'|]; [|discriminate]. inversion H. subst.
+    eapply Permutation_trans; [apply perm_skip; apply IH; reflexivity | apply perm_swap].
+Qed.
+
+Theorem calls_permb_sound : forall a b, calls_permb a b = true -> Permutation a b.
+Proof.
+  induction a as [|x t IH]; intros b H; simpl in H.
+  - destruct b; [constructor | discriminate].
+  - destruct (remove_call x b) as [b'|] eqn:E; [|discriminate].
+    eapply Permutation_trans; [apply perm_skip; apply IH; exact H | apply Permutation_sym; apply remove_call_perm; exact E].
+Qed.
+
 Definition crun (u : universe) (ops : list cop) : list cout := run (table_provider u) cempty ops.
+
+(* queries that overlap in time: each must get the answer it gets when the queries are issued one after the
+   other, and together they must consult the provider exactly as often (every provider call at most once,
+   whichever query came first) *)
+Definition overlap_run (u : universe) (ops : list cop) (observed : list ocall) : list cans * bool :=
+  let outs := crun u ops in
+  (map o_ans outs, calls_permb (concat (map o_calls outs)) observed).
 
 (* for a provider call log observed during a solve: the probes sort_candidates
    must have seen, and whether every call was made at most once *)
